@@ -158,6 +158,34 @@ class VecTrack:
         finally:
             P.is_modelled_struct = orig
 
+    INT_C = ('int8_t', 'uint8_t', 'int16_t', 'uint16_t', 'int32_t', 'uint32_t', 'int64_t', 'uint64_t', 'char')
+
+    def int_divisions(self, P, n, p):
+        """an INTEGER division inside an erased floating-point / Eigen statement is invisible once the statement is dropped, but its
+        truncation is not what the real-valued formula means (`(n * n) / (n * n - 1)` with an integral n is 1): every such division
+        becomes the obligation that it is exact.  The operands are printed from the AST like any other integer expression."""
+        import astload
+        out = ''
+        for x in astload.walk(n):
+            if x.get('kind') != 'BinaryOperator' or x.get('opcode') != '/':
+                continue
+            try:
+                c = P.ctype(x['type'])
+            except Unsupported:
+                continue
+            if c not in self.INT_C:
+                continue
+            la, lb = unwrap(x['inner'][0]), unwrap(x['inner'][1])
+            P.note('integer division inside erased numerics -> exactness obligation')
+            if la.get('kind') == 'IntegerLiteral' and lb.get('kind') == 'IntegerLiteral' and int(lb['value']) != 0 and int(la['value']) % int(lb['value']) == 0:
+                continue        # a constant, exact quotient
+            # exactness of a quotient of non-constant integers (n * n over n * n - 1) is a non-linear fact the SAT back end cannot
+            # afford; the obligation is therefore the syntactic one: no such division inside real-valued numerics at all
+            src = (P.expr(x['inner'][0]) + ' / ' + P.expr(x['inner'][1])).replace('"', "'")[:120]
+            out += (f'{p}__CPROVER_assert(0, "no truncating integer division feeds erased floating-point numerics '
+                    f'(a real-valued factor must be computed in floating point): {src}");\n')
+        return out
+
     def touches(self, addrs, p):
         return ''.join(f'{p}{self.touch}({a});\n' for a in addrs)
 
@@ -240,13 +268,13 @@ class VecTrack:
                 self.check_pure(P, rhs, f'value assigned to a tracked vector ({op})')
                 P.note(f'tracked vector: {op} <erased expression> -> touch')
                 P.dropped.append(n.get('range', {}).get('begin', {}).get('line', '?'))
-                return self.touches(w, p)
+                return self.int_divisions(P, rhs, p) + self.touches(w, p)
         if P.is_opaque(top.get('type')) or (top.get('kind') in ('CXXOperatorCallExpr', 'CXXMemberCallExpr') and self.is_unmapped_erased(P, top)):
             self.check_pure(P, n, 'erased statement over tracked vectors')
             P.note('tracked vector: erased statement -> touch')
             P.dropped.append(n.get('range', {}).get('begin', {}).get('line', '?'))
             P.erased.append(f'line {n.get("range", {}).get("begin", {}).get("line", "?")}: erased statement (opaque numerics; tracked vectors touched: {", ".join(w) or "none"})')
-            return self.touches(w, p)
+            return self.int_divisions(P, n, p) + self.touches(w, p)
         if not w:
             return None
         return self.touches(w, p) + self.reenter(P, n, ind)
